@@ -41,6 +41,7 @@ inductive Ev
   | tsleep (ms : Nat)
   | tcleanup
   | mt (kind : String) (ok : Bool) (detail : String)
+  | hbrace (ms : Nat) (ticked : Bool)          -- real timer callback vs real call_heart_beat (TSan run)
   | race (what : String)                      -- ThreadSanitizer report (runtime part)
   | skip (why : String)
   deriving Repr, DecidableEq
@@ -64,6 +65,7 @@ inductive Cmd
   | wdestroy (w : Nat)
   | tinit | tstart (ms : Nat) | tstop | tactive | tsleep (ms : Nat) | tticks | tafter | tcleanup
   | mt (kind : String) (args : List Nat)
+  | hbrace (ms : Nat)
   deriving Repr
 
 /-! ### timed join as a little machine of the controlling thread -/
@@ -235,6 +237,7 @@ def step (s : World) : Cmd → World
     if !s.tm.inited then s.emit (.skip "timer-not-inited")
     else ({ s with tm := {}, sleptActive := 0 }).emit .tcleanup
   | .mt kind _ => s.emit (.mt kind true "")
+  | .hbrace ms => s.emit (.hbrace ms true)
 
 def runCmds (cmds : List Cmd) : World := cmds.foldl step {}
 
@@ -272,6 +275,7 @@ def render : Ev → String
   | .tsleep ms => s!"tsleep {ms}"
   | .tcleanup => "tcleanup"
   | .mt k ok d => (s!"mt {k} {if ok then "ok" else "bad"} {d}").trimAsciiEnd.toString
+  | .hbrace ms t => s!"hbrace {ms} {if t then "done" else "no-tick"}"
   | .race w => s!"race {w}"
   | .skip w => s!"skip {w}"
 
